@@ -122,7 +122,8 @@ type Exec struct {
 	step       int
 	nameForms  map[string]map[string]string // F7: "obj|ref path.Name" -> spelling -> first file (per run)
 	clockTicks int
-	reusedRun  bool // the run being checked ran on a kept executor (see doRun)
+	reusedRun  bool        // the run being checked ran on a kept executor (see doRun)
+	keptRec    *StepRecord // the run that loaded the executor the worker keeps alive
 	// twoPass: a run with an unrecorded first pass happened (see violate)
 	twoPass bool
 	// loadBroken: the scenario broke a source file or go.mod on purpose.
@@ -628,6 +629,13 @@ func (x *Exec) doRun(op Op) (*StepRecord, error) {
 	}
 	if run.HasFirstGlobals {
 		x.twoPass = true
+	}
+	if resp != nil && resp.ReusedExecutor && x.keptRec != nil {
+		// what this run generated from is what the executor loaded, not what the tree held when Execute
+		// was called again (the model's "generated completely from this content" is about the former)
+		rec.Content, rec.Hload = x.keptRec.Content, x.keptRec.Hload
+	} else if run.KeepExecutor {
+		x.keptRec = rec
 	}
 	if resp != nil && resp.ReusedExecutor {
 		// the executor was loaded before the previous run wrote its files: what it believes about directory
